@@ -253,7 +253,11 @@ func (p *pg) block(ind int, vars, ro, bools []string, depth, n int, inLoop bool)
 		case choice == 15:
 			p.feat["range"] = true
 			v := p.fresh("e")
-			p.emit(ind, "for _, %s := range []int{%d, %d} {", v, p.r.Intn(5), p.r.Intn(5))
+			if p.r.Intn(3) == 0 {
+				p.emit(ind, "for %s := range %d {", v, 1+p.r.Intn(3))
+			} else {
+				p.emit(ind, "for _, %s := range []int{%d, %d} {", v, p.r.Intn(5), p.r.Intn(5))
+			}
 			p.block(ind+1, vars, append(append([]string(nil), ro...), v), bools, depth+1, 1, true)
 			p.emit(ind, "}")
 		case choice == 16 && inLoop:
@@ -289,10 +293,11 @@ func (p *pg) block(ind int, vars, ro, bools []string, depth, n int, inLoop bool)
 			p.emit(ind, "%s := 0", k)
 			p.emit(ind, "for {")
 			p.emit(ind+1, "%s++", k)
-			p.block(ind+1, vars, append(append([]string(nil), ro...), k), bools, depth+1, 1, true)
-			p.emit(ind+1, "if %s >= %d {", k, 1+p.r.Intn(3))
+			// (the exit test comes before the body: a `continue` of the body must not skip it)
+			p.emit(ind+1, "if %s > %d {", k, 1+p.r.Intn(3))
 			p.emit(ind+2, "break")
 			p.emit(ind+1, "}")
+			p.block(ind+1, vars, append(append([]string(nil), ro...), k), bools, depth+1, 1, true)
 			p.emit(ind, "}")
 		case choice == 22:
 			// continue of an outer loop from an inner one
